@@ -4,8 +4,8 @@
    brd_step).  The laws of the primitives (categorical, uniform permutation, U[0,1)) are the
    trusted assumptions; everything built on them is proved here. *)
 From VK Require Import Base Core STV Rules Laws.
-From VK.Spec Require Import ScoreSpec LawSpec.
-From VK.Proofs Require Import C12_expand C06_pairwise C04_scoring Elect Lib_sets Dist.
+From VK.Spec Require Import EditSpec ScoreSpec LawSpec.
+From VK.Proofs Require Import Lib_condense12 C12_edit C12_expand C06_pairwise C04_scoring Elect Lib_sets Dist.
 From Coq Require Import Permutation Lia Lqa Setoid Morphisms.
 
 Section C17.
@@ -48,6 +48,12 @@ Notation some_first := (some_first cand).
 Notation rd_path_prob := (rd_path_prob cand ceqb).
 Notation rd_path_ok := (rd_path_ok cand ceqb).
 Notation rd_tree_ok := (rd_tree_ok cand ceqb).
+Notation rd_ballot_ok := (rd_ballot_ok cand).
+Notation rd_seats_ok := (rd_seats_ok cand).
+Notation flat := (flat cand).
+Notation strip := (strip cand ceqb).
+Notation scrub := (scrub cand ceqb).
+Notation condense_bs := (condense_bs cand ceqb).
 Notation draw_ballot := (draw_ballot cand ceqb).
 Notation dictator_pick := (dictator_pick cand ceqb).
 Notation elect_one := (elect_one cand ceqb).
@@ -491,7 +497,7 @@ Proof.
     + exists [CSample s]. split; [reflexivity|right; exists s; reflexivity].
   - destruct (rk b) as [|sb rb] eqn:Hrk; [discriminate|].
     cbn [Core.ranking_eqb] in Hrb. apply andb_true_iff in Hrb. destruct Hrb as [Hs _].
-    exists b, sb, rb. split; [exact Hb|]. split; [exact Hwb|]. split; [reflexivity|].
+    exists b, sb, rb. split; [exact Hb|]. split; [exact Hwb|]. split; [exact Hrk|].
     apply (cset_eqb_iff cand ceqb ceqb_spec) in Hs. destruct Hs as [Hincl _]. apply Hincl. exact Hws.
 Qed.
 
@@ -574,8 +580,434 @@ Proof.
            (mkM [] (CSample s :: CChoices (choices_pop p) :: l0)).
     intros prev. unfold Rules.rd_step, mbind. rewrite (draw_ballot_run p b _ l0 Htot Hb Hwb).
     rewrite Hrk. unfold s at 1. cbn [Rules.dictator_pick]. fold s.
-    cbn [Core.tiebreak_set]. unfold mbind, Core.draw_perm, Core.next_draw. cbn [scr lg]. unfold ok.
+    cbn [Core.tiebreak_set]. unfold Core.draw_perm, mbind, Core.next_draw. cbn [scr lg]. unfold ok.
     rewrite (is_perm_of_intro cand ceqb ceqb_spec _ s Hnd Hperm). reflexivity.
 Qed.
+
+(* ------------------------------------------------------------------ *)
+(** * B. One BoostedRandomDictator step *)
+
+(* summing g(value) over the entries of a duplicate-free dictionary whose key is x gives
+   g (the looked-up value), provided g 0 == 0 for absent keys *)
+Lemma qsum_lookup0 : forall (g : Q -> Q) (x : cand) (d : scores),
+  NoDup (map fst d) -> g 0 == 0 ->
+  qsum (map (fun q => if ceqb x (fst q) then g (snd q) else 0) d) == g (lookup0 x d).
+Proof.
+  intros g x d Hnd Hg0. induction d as [|[a v] d IH].
+  - cbn [map]. rewrite qsum_nil. symmetry. exact Hg0.
+  - cbn [map fst snd] in *. inversion Hnd as [|a' l' Ha Hnd']; subst. rewrite qsum_cons.
+    unfold Core.lookup0, Core.lookup. cbn [find fst snd].
+    destruct (ceqb_spec x a) as [->|Hne].
+    + cbn [snd]. rewrite qsum_map_zero; [ring|]. intros [a' v'] Hin. cbn [fst snd].
+      destruct (ceqb_spec a a') as [<-|_]; [|reflexivity].
+      exfalso. apply Ha. apply in_map_iff. exists (a, v'). split; [reflexivity|exact Hin].
+    + rewrite (IH Hnd'). unfold Core.lookup0, Core.lookup. ring.
+Qed.
+
+Definition sumsq (d : scores) : Q := qsum (map (fun q => snd q * snd q) d).
+
+Lemma squares_z : forall (d : scores) (t : Q), ~ t == 0 ->
+  qsum (map snd (map (fun q : cand * Q => (fst q, (snd q / t) * (snd q / t))) d))
+  == sumsq d / (t * t).
+Proof.
+  intros d t Ht. rewrite map_map. cbn [snd]. unfold sumsq. rewrite <- qsum_map_div.
+  apply qsum_map_ext_in. intros q _. field. exact Ht.
+Qed.
+
+Lemma squares_total : forall (d : scores) (t : Q), ~ t == 0 -> ~ sumsq d == 0 ->
+  qsum (map snd (squares d t)) == 1.
+Proof.
+  intros d t Ht Hs. unfold Rules.squares. cbv zeta.
+  set (sq := map (fun q : cand * Q => (fst q, (snd q / t) * (snd q / t))) d).
+  rewrite map_map. cbn [snd]. rewrite qsum_map_div.
+  assert (Hz : ~ qsum (map snd sq) == 0).
+  { unfold sq. rewrite (squares_z d t Ht). intros E. apply Hs.
+    assert (Htt : ~ t * t == 0) by (intros E'; apply Qmult_integral in E'; tauto).
+    rewrite <- (Qmult_div_r (sumsq d) (t * t) Htt). rewrite E. ring. }
+  field. exact Hz.
+Qed.
+
+(* numpy choice(cands, p = squares): candidate x has probability d_x^2 / sum d_i^2 — the
+   normalisation by the total weight cancels *)
+Theorem squares_law : forall (d : scores) (t : Q) x,
+  NoDup (map fst d) -> ~ t == 0 -> ~ sumsq d == 0 ->
+  mass (categorical (squares d t)) == 1 /\
+  prob (ceqb x) (categorical (squares d t)) == squares_closed_form d x.
+Proof.
+  intros d t x Hnd Ht Hs. pose proof (squares_total d t Ht Hs) as Htot. split.
+  - apply mass_categorical. rewrite Htot. intros E. discriminate.
+  - rewrite prob_categorical, Htot. fold (prob (ceqb x) (squares d t)).
+    rewrite prob_as_sum. unfold Rules.squares. cbv zeta. rewrite !map_map. cbn [fst snd].
+    set (z := qsum (map (fun q : cand * Q => (snd q / t) * (snd q / t)) d)).
+    assert (Hz : z == sumsq d / (t * t)).
+    { unfold z. rewrite <- (squares_z d t Ht), map_map. reflexivity. }
+    rewrite (qsum_lookup0 (fun v => (v / t) * (v / t) / z) x d Hnd).
+    + unfold Laws.squares_closed_form. fold (sumsq d). rewrite Hz. field. split; assumption.
+    + unfold Qdiv. ring.
+Qed.
+
+Lemma Qnat_ge2 : forall n, (2 <= n)%nat -> 1 <= Qnat n - 1.
+Proof.
+  intros n Hn. assert (H : 2 <= Qnat n).
+  { unfold Qnat. change 2 with (inject_Z 2). rewrite <- Zle_Qle. lia. }
+  lra.
+Qed.
+
+(* the mixing weight 1/(c-1) is a probability for c >= 2 candidates: for u uniform on [0,1) the
+   branch condition u <= 1/(c-1) holds with probability exactly 1/(c-1) *)
+Theorem brd_lambda_range : forall n, (2 <= n)%nat ->
+  0 < 1 / (Qnat n - 1) /\ 1 / (Qnat n - 1) <= 1.
+Proof.
+  intros n Hn. pose proof (Qnat_ge2 n Hn) as H. split.
+  - unfold Qdiv. rewrite Qmult_1_l. apply Qinv_lt_0_compat. lra.
+  - apply Qle_shift_div_r; lra.
+Qed.
+
+Theorem brd_step_law : forall (p : profile) (d : scores) x,
+  rd_domain p -> (2 <= length (cands p))%nat ->
+  NoDup (map fst d) -> 0 < sumsq d ->
+  let lam := 1 / (Qnat (length (cands p)) - 1) in
+  mass (law_brd_winner p d) == 1 /\
+  prob (ceqb x) (law_brd_winner p d) ==
+    lam * squares_closed_form d x + (1 - lam) * rd_closed_form p x.
+Proof.
+  intros p d x Hdom Hc Hnd Hs lam.
+  assert (Ht : ~ total_wt (ballots p) == 0) by (apply total_pos_neq0; apply Hdom).
+  assert (Hs' : ~ sumsq d == 0) by (intros E; rewrite E in Hs; apply (Qlt_irrefl 0); exact Hs).
+  destruct (squares_law d (total_wt (ballots p)) x Hnd Ht Hs') as [Hm1 Hp1].
+  destruct (rd_step_law p Hdom) as [Hm2 Hp2].
+  unfold Laws.law_brd_winner. subst lam.
+  destruct (cands p) as [|c1 [|c2 cs]]; cbn [length] in Hc; [lia|lia|]. split.
+  - apply mass_dmix_one; assumption.
+  - rewrite prob_dmix, Hp1, Hp2. reflexivity.
+Qed.
+
+Theorem brd_step_nonneg : forall (p : profile) (d : scores),
+  nonneg_weights p -> (2 <= length (cands p))%nat -> 0 < total_wt (ballots p) ->
+  nonneg_dist (law_brd_winner p d).
+Proof.
+  intros p d Hw Hc Ht. unfold Laws.law_brd_winner.
+  pose proof (brd_lambda_range _ Hc) as [Hl0 Hl1].
+  destruct (cands p) as [|c1 [|c2 cs]]; cbn [length] in Hc; [lia|lia|].
+  apply nonneg_dmix; [lra|exact Hl1| |apply rd_step_nonneg; exact Hw].
+  apply nonneg_categorical. intros a w Hin. unfold Rules.squares in Hin. cbv zeta in Hin.
+  rewrite map_map in Hin. cbn [fst snd] in Hin. apply in_map_iff in Hin.
+  destruct Hin as (q & E & _). injection E as _ <-.
+  set (t := total_wt (ballots p)).
+  assert (Hsq : forall v : Q, 0 <= (v / t) * (v / t)).
+  { intros v. destruct (Qlt_le_dec (v / t) 0) as [Hn|Hn].
+    - setoid_replace ((v / t) * (v / t)) with ((- (v / t)) * (- (v / t))) by ring.
+      apply Qmult_le_0_compat; lra.
+    - apply Qmult_le_0_compat; exact Hn. }
+  unfold Qdiv at 1. apply Qmult_le_0_compat; [apply Hsq|]. apply Qinv_le_0_compat.
+  rewrite map_map. cbn [snd]. apply qsum_map_nonneg. intros [a' v'] _. cbn [snd]. apply Hsq.
+Qed.
+
+(* a single remaining candidate is elected with probability 1 *)
+Theorem brd_single_law : forall (p : profile) (d : scores) c,
+  cands p = [c] ->
+  law_brd_winner p d = dret c /\ mass (law_brd_winner p d) == 1 /\
+  prob (ceqb c) (law_brd_winner p d) == 1.
+Proof.
+  intros p d c Hc. unfold Laws.law_brd_winner. rewrite Hc. split; [reflexivity|].
+  split; [apply mass_dret|]. rewrite prob_dret, ceqb_refl'. reflexivity.
+Qed.
+
+(* --- the script reading of brd_step --- *)
+
+(* any run of brd_step that does not stop with a script error first consumes a DUnit draw and
+   logs CUniform as its first call *)
+Lemma brd_step_first : forall (p : profile) (prev : estate) (st st' : mstate) x,
+  brd_step p prev st = inl (x, st') ->
+  exists u rest, scr st = DUnit u :: rest.
+Proof.
+  intros p prev st st' x H. unfold Rules.brd_step, mbind, Core.next_draw in H.
+  destruct (scr st) as [|du rest]; [discriminate|]. unfold ok in H.
+  destruct du as [| | |u| |]; try discriminate. exists u, rest. reflexivity.
+Qed.
+
+Definition not_single (p : profile) : Prop := forall c, cands p <> [c].
+
+(* single remaining candidate: elected outright, whatever u *)
+Theorem brd_single_script : forall (p : profile) (prev : estate) (st : mstate) u rest c,
+  scr st = DUnit u :: rest -> cands p = [c] ->
+  brd_step p prev st = elect_one c [] p prev (mkM rest (CUniform :: lg st)).
+Proof.
+  intros p prev st u rest c Hscr Hc. unfold Rules.brd_step, mbind, Core.next_draw.
+  rewrite Hscr, Hc. reflexivity.
+Qed.
+
+(* u > 1/(c-1): the step IS a RandomDictator step on the advanced state *)
+Theorem brd_else_branch : forall (p : profile) (prev : estate) (st : mstate) u rest,
+  scr st = DUnit u :: rest -> not_single p ->
+  Qle_bool u (1 / (Qnat (length (cands p)) - 1)) = false ->
+  brd_step p prev st = rd_step p prev (mkM rest (CUniform :: lg st)).
+Proof.
+  intros p prev st u rest Hscr Hns Hle. unfold Rules.brd_step, mbind, Core.next_draw.
+  rewrite Hscr. unfold ok.
+  destruct (cands p) as [|c1 [|c2 cs]] eqn:Hc; [| exfalso; apply (Hns c1); exact Hc |];
+    rewrite Hle; reflexivity.
+Qed.
+
+(* u <= 1/(c-1): the next call is numpy choice on exactly the population of the law, and the
+   winner is one of the scored candidates *)
+Theorem brd_squares_branch : forall (p : profile) (prev : estate) (st st' : mstate) u rest np e,
+  scr st = DUnit u :: rest -> not_single p ->
+  Qle_bool u (1 / (Qnat (length (cands p)) - 1)) = true ->
+  brd_step p prev st = inl ((np, e), st') ->
+  ~ total_wt (ballots p) == 0 /\
+  exists w rest', rest = DCand w :: rest' /\ In w (map fst (escores prev)) /\
+    elected e = [[w]] /\ remove_cand_prof [w] true false p = inl np /\
+    st' = mkM rest' (CNpChoice (squares (escores prev) (total_wt (ballots p))) :: CUniform :: lg st).
+Proof.
+  intros p prev st st' u rest np e Hscr Hns Hle H.
+  unfold Rules.brd_step, mbind, Core.next_draw in H. rewrite Hscr in H. unfold ok in H.
+  assert (H' : (if Qeq_bool (total_wt (ballots p)) 0 then mfail EValue else
+            fun s0 : mstate =>
+            match (match scr s0 with
+                   | [] => err EScript
+                   | d0 :: rest0 =>
+                       inl (d0, mkM rest0 (CNpChoice (squares (escores prev) (total_wt (ballots p))) :: lg s0))
+                   end) with
+            | inl (dc, s1) =>
+                match dc with
+                | DCand w => if memb w (map fst (escores prev))
+                             then elect_one w [] p prev else mfail EScript
+                | _ => mfail EScript
+                end s1
+            | inr e0 => inr e0
+            end) (mkM rest (CUniform :: lg st)) = inl ((np, e), st')).
+  { destruct (cands p) as [|c1 [|c2 cs]] eqn:Hc; [| exfalso; apply (Hns c1); exact Hc |];
+      rewrite Hle in H; exact H. }
+  clear H. destruct (Qeq_bool (total_wt (ballots p)) 0) eqn:Hq; [discriminate|].
+  split; [intros E; apply Qeq_bool_iff in E; congruence|].
+  cbn [scr lg] in H'. destruct rest as [|dc rest']; [discriminate|].
+  destruct dc as [| | | |w|]; try discriminate.
+  destruct (memb w (map fst (escores prev))) eqn:Hm; [|discriminate].
+  destruct (elect_one_inv _ _ _ _ _ _ _ _ H') as (-> & Hel & _ & Hrem).
+  exists w, rest'. split; [reflexivity|]. split; [apply memb_In'; exact Hm|].
+  split; [exact Hel|]. split; [exact Hrem|reflexivity].
+Qed.
+
+(* every successful step: the first draw consumed is a DUnit and the first call logged is
+   random.uniform *)
+Theorem brd_step_log : forall (p : profile) (prev : estate) (st st' : mstate) np e,
+  brd_step p prev st = inl ((np, e), st') ->
+  exists u rest later, scr st = DUnit u :: rest /\ lg st' = later ++ CUniform :: lg st.
+Proof.
+  intros p prev st st' np e H. destruct (brd_step_first _ _ _ _ _ H) as (u & rest & Hscr).
+  exists u, rest.
+  assert (Hcases : (exists c, cands p = [c]) \/ not_single p).
+  { destruct (cands p) as [|c1 [|c2 cs]] eqn:Hc.
+    - right. intros c E. rewrite Hc in E. discriminate.
+    - left. exists c1. reflexivity.
+    - right. intros c E. rewrite Hc in E. discriminate. }
+  destruct Hcases as [(c & Hc)|Hns].
+  - rewrite (brd_single_script p prev st u rest c Hscr Hc) in H.
+    destruct (elect_one_inv _ _ _ _ _ _ _ _ H) as (-> & _). exists []. split; [exact Hscr|reflexivity].
+  - destruct (Qle_bool u (1 / (Qnat (length (cands p)) - 1))) eqn:Hle.
+    + destruct (brd_squares_branch p prev st st' u rest np e Hscr Hns Hle H)
+        as (_ & w & rest' & _ & _ & _ & _ & ->).
+      exists [CNpChoice (squares (escores prev) (total_wt (ballots p)))].
+      split; [exact Hscr|reflexivity].
+    + rewrite (brd_else_branch p prev st u rest Hscr Hns Hle) in H.
+      destruct (rd_step_inv _ _ _ _ _ _ H) as (w & _ & _ & _ & (later & Hlg & _) & _).
+      cbn [lg] in Hlg. exists (later ++ [CChoices (choices_pop p)]). split; [exact Hscr|].
+      rewrite Hlg, <- app_assoc. reflexivity.
+Qed.
+
+(* the random tiebreak of the script reading: one random.sample call on exactly the tied set,
+   answered by a permutation of it — the outcome space of [law_random_tiebreak] *)
+Theorem random_tiebreak_call : forall (s : cset) (po : option profile) (st st' : mstate) t,
+  tiebreak_set cand ceqb s po TBRandom st = inl (t, st') ->
+  exists l, t = Core.singletons cand l /\ Permutation l s /\ NoDup l /\
+            scr st = DPerm l :: scr st' /\ lg st' = CSample s :: lg st.
+Proof.
+  intros s po st st' t H. cbn [Core.tiebreak_set] in H. unfold mbind in H.
+  destruct (Core.draw_perm cand ceqb s st) as [[l st1]|e0] eqn:Hd; [|discriminate].
+  unfold mret, ok in H. injection H as <- <-.
+  destruct (draw_perm_inv cand ceqb ceqb_spec _ _ _ _ Hd) as (Hp & Hnd & rest & Hscr & ->).
+  exists l. repeat split; assumption.
+Qed.
+
+(* ------------------------------------------------------------------ *)
+(** * M. Multi-seat RandomDictator *)
+
+(* the recursive equation of the law of the sequence of winners, without any hypothesis *)
+Theorem rd_sequence_rec : forall k (p : profile) w ws,
+  prob (list_eqb (w :: ws)) (law_rd_sequence (S k) p) ==
+  prob (ceqb w) (law_rd_winner p) *
+  match remove_cand_prof [w] true false p with
+  | inl np => prob (list_eqb ws) (law_rd_sequence k np)
+  | inr _ => 0
+  end.
+Proof.
+  intros k p w ws. cbn [Laws.law_rd_sequence]. rewrite prob_dbind.
+  rewrite (prob_as_sum (ceqb w) (law_rd_winner p)), <- qsum_map_scal_r.
+  apply qsum_map_ext_in. intros [x q] _. cbn [fst snd].
+  destruct (ceqb_spec w x) as [<-|Hne].
+  - destruct (remove_cand_prof [w] true false p) as [np|e0].
+    + rewrite prob_dbind_dret.
+      rewrite (prob_ext_in (fun l => list_eqb (w :: ws) (w :: l)) (list_eqb ws)); [reflexivity|].
+      intros l q' _. cbn [LawSpec.list_eqb]. rewrite ceqb_refl'. reflexivity.
+    + rewrite prob_nil. reflexivity.
+  - assert (E : prob (list_eqb (w :: ws))
+                  match remove_cand_prof [x] true false p with
+                  | inl np => dbind (law_rd_sequence k np) (fun l => dret (x :: l))
+                  | inr _ => []
+                  end == 0).
+    { destruct (remove_cand_prof [x] true false p) as [np|e0]; [|rewrite prob_nil; reflexivity].
+      rewrite prob_dbind_dret. rewrite <- (prob_false (law_rd_sequence k np)).
+      apply prob_ext_in. intros l q' _. cbn [LawSpec.list_eqb].
+      destruct (ceqb_spec w x) as [E|_]; [contradiction|reflexivity]. }
+    rewrite E. ring.
+Qed.
+
+Lemma rd_sequence_zero : forall (p : profile), law_rd_sequence 0 p = dret [].
+Proof. reflexivity. Qed.
+
+(* P(w1, ..., wk) = product of the one-step closed forms along the path, when the profiles met
+   along the path are in the domain of a step *)
+Theorem rd_sequence_path : forall ws (p : profile), rd_path_ok ws p ->
+  prob (list_eqb ws) (law_rd_sequence (length ws) p) == rd_path_prob ws p.
+Proof.
+  induction ws as [|w ws IH]; intros p Hok.
+  - cbn [length Laws.law_rd_sequence LawSpec.rd_path_prob]. rewrite prob_dret. reflexivity.
+  - cbn [length LawSpec.rd_path_prob]. cbn [LawSpec.rd_path_ok] in Hok. destruct Hok as [Hdom Hrest].
+    rewrite rd_sequence_rec. destruct (rd_step_law p Hdom) as [_ ->].
+    destruct (remove_cand_prof [w] true false p) as [np|e0]; [|reflexivity].
+    rewrite (IH np Hrest). reflexivity.
+Qed.
+
+(* the support of one step: only candidates listed first on some ballot *)
+Lemma law_rd_winner_support : forall (p : profile) w q,
+  In (w, q) (law_rd_winner p) -> some_first p w.
+Proof.
+  intros p w q H. unfold Laws.law_rd_winner in H. apply dbind_support in H.
+  destruct H as (r & q1 & q2 & Hr & Hw & _). apply law_draw_ballot_support in Hr.
+  destruct Hr as (b & Hb & ->). destruct (rk b) as [|s r'] eqn:Hrk; [destruct Hw|].
+  exists b, s, r'. split; [exact Hb|]. split; [exact Hrk|].
+  destruct s as [|x [|y s']]; [destruct Hw| |].
+  - destruct Hw as [E|[]]. injection E as <- _. left. reflexivity.
+  - set (s := x :: y :: s') in *.
+    change (In (w, q2) (dbind (uperm s) (fun l => match l with c0 :: _ => dret c0 | [] => [] end))) in Hw.
+    apply dbind_support in Hw. destruct Hw as (o & q3 & q4 & Ho & Hw & _).
+    apply uperm_support in Ho. destruct o as [|z o]; [destruct Hw|].
+    destruct Hw as [E|[]]. injection E as <- _.
+    eapply Permutation_in; [exact Ho|left; reflexivity].
+Qed.
+
+(* total mass 1 when every reachable profile stays in the domain *)
+Theorem rd_sequence_mass : forall k (p : profile), rd_tree_ok k p ->
+  mass (law_rd_sequence k p) == 1.
+Proof.
+  induction k as [|k IH]; intros p Hok.
+  - apply mass_dret.
+  - cbn [LawSpec.rd_tree_ok] in Hok. destruct Hok as [Hdom Hnext].
+    cbn [Laws.law_rd_sequence]. rewrite mass_dbind_one; [apply (rd_step_law p Hdom)|].
+    intros w q Hw. apply law_rd_winner_support in Hw.
+    destruct (Hnext w Hw) as (np & -> & Hnp).
+    rewrite mass_dbind_one; [apply IH; exact Hnp|]. intros l q' _. apply mass_dret.
+Qed.
+
+(* --- a concrete class of profiles on which the invariant holds --- *)
+
+Lemma total_wt_pos : forall bs : list ballot, bs <> [] -> Forall (fun b => 0 < wt b) bs ->
+  0 < total_wt bs.
+Proof.
+  intros bs Hne Hall. unfold Core.total_wt.
+  destruct bs as [|b bs]; [contradiction|].
+  apply (qsum_map_pos (@wt cand) (b :: bs) b).
+  - intros x Hx. rewrite Forall_forall in Hall. apply Qlt_le_weak. apply Hall. exact Hx.
+  - left. reflexivity.
+  - inversion Hall; assumption.
+Qed.
+
+Lemma filter_out_one_length : forall w (l : list cand), NoDup l ->
+  (length l <= S (length (filter (fun c => negb (memb c [w])) l)))%nat.
+Proof.
+  intros w l Hnd. induction Hnd as [|x l Hx _ IH]; cbn [filter length]; [lia|].
+  destruct (memb x [w]) eqn:Hm; cbn [negb length]; [|lia].
+  apply memb_In' in Hm. destruct Hm as [<-|[]].
+  rewrite filter_all_true; [lia|]. intros c Hc. cbn [Core.memb existsb]. rewrite orb_false_r.
+  destruct (ceqb_spec c w) as [->|_]; [contradiction|reflexivity].
+Qed.
+
+Lemma seats_ok_domain : forall k (p : profile), rd_seats_ok (S k) p -> rd_domain p.
+Proof.
+  intros k p H. destruct (H (Nat.lt_0_succ k)) as (_ & Hne & Hall). split.
+  - eapply Forall_impl; [|exact Hall]. intros b (_ & _ & Hnd & Hgr & Hlen).
+    destruct (rk b) as [|s r']; [cbn in Hlen; lia|]. exists s, r'. split; [reflexivity|].
+    inversion Hgr as [|s0 r0 Hs _]; subst. split; [exact Hs|].
+    rewrite (flat_cons cand) in Hnd. apply NoDup_app_inv in Hnd. apply Hnd.
+  - apply total_wt_pos; [exact Hne|]. eapply Forall_impl; [|exact Hall]. intros b Hb. apply Hb.
+Qed.
+
+Lemma scrub_ballot_ok : forall k w (b : ballot), rd_ballot_ok (S (S k)) b ->
+  rd_ballot_ok (S k) (scrub [w] b) /\ pos_wt cand (scrub [w] b) = true.
+Proof.
+  intros k w b (Hsc & Hwt & Hnd & _ & Hlen).
+  assert (Hflat : flat (strip [w] (rk b)) = filter (fun c => negb (memb c [w])) (flat (rk b)))
+    by apply strip_flat.
+  assert (Hlen' : (S k <= length (flat (strip [w] (rk b))))%nat).
+  { rewrite Hflat. pose proof (filter_out_one_length w (flat (rk b)) Hnd). lia. }
+  assert (Hne : nonempty (strip [w] (rk b)) = true).
+  { destruct (strip [w] (rk b)); [cbn in Hlen'; lia|reflexivity]. }
+  rewrite (scrub_sf cand ceqb [w] b Hsc), Hne. split.
+  - unfold LawSpec.rd_ballot_ok. cbn [sc wt rk]. split; [reflexivity|]. split; [exact Hwt|]. split.
+    + rewrite Hflat. apply NoDup_filter. exact Hnd.
+    + split; [apply strip_no_empty|exact Hlen'].
+  - apply pos_wt_iff. exact Hwt.
+Qed.
+
+(* every ballot ranks at least as many candidates as there are seats: the invariant holds *)
+Theorem seats_ok_tree : forall k (p : profile), rd_seats_ok k p -> rd_tree_ok k p.
+Proof.
+  induction k as [|k IH]; intros p H; [exact I|].
+  cbn [LawSpec.rd_tree_ok]. split; [apply (seats_ok_domain k p H)|]. intros w _.
+  destruct (H (Nat.lt_0_succ k)) as (Hndc & Hne & Hall).
+  unfold Core.remove_cand_prof, Core.mk_profile.
+  assert (Hnd' : NoDup (set_diff cand ceqb (cands p) [w])) by (apply set_diff_NoDup; exact Hndc).
+  rewrite (proj2 (has_dup_false_iff cand ceqb ceqb_spec _) Hnd'). unfold ok.
+  eexists. split; [reflexivity|]. apply IH. intros Hk. cbn [ballots cands].
+  destruct k as [|k]; [lia|]. split; [|split].
+  - destruct (set_diff cand ceqb (cands p) [w]) as [|c0 cs0] eqn:Hsd; [|exact Hnd'].
+    unfold Core.cast_cands. apply (dedup_NoDup cand ceqb ceqb_spec).
+  - (* some ballot is left: the total weight is still positive *)
+    rewrite remove_cand_bs_unfold. cbn [kept_of].
+    set (kept := filter (pos_wt cand) (map (scrub [w]) (ballots p))).
+    assert (Hkept : kept = map (scrub [w]) (ballots p)).
+    { unfold kept. apply filter_all_true. intros b' Hb'. apply in_map_iff in Hb'.
+      destruct Hb' as (b & <- & Hb). rewrite Forall_forall in Hall.
+      apply (scrub_ballot_ok k w b (Hall b Hb)). }
+    assert (Htot : 0 < total_wt kept).
+    { apply total_wt_pos.
+      - rewrite Hkept. destruct (ballots p); [contradiction|discriminate].
+      - rewrite Hkept. apply Forall_forall. intros b' Hb'. apply in_map_iff in Hb'.
+        destruct Hb' as (b & <- & Hb). rewrite Forall_forall in Hall.
+        apply (scrub_ballot_ok k w b (Hall b Hb)). }
+    intros E. rewrite <- (condense_total cand ceqb kept), E in Htot.
+    apply (Qlt_irrefl 0). exact Htot.
+  - rewrite remove_cand_bs_unfold. cbn [kept_of].
+    set (kept := filter (pos_wt cand) (map (scrub [w]) (ballots p))).
+    assert (Hkall : Forall (rd_ballot_ok (S k)) kept).
+    { apply Forall_forall. intros b' Hb'. unfold kept in Hb'. apply filter_In in Hb'.
+      destruct Hb' as [Hb' _]. apply in_map_iff in Hb'. destruct Hb' as (b & <- & Hb).
+      rewrite Forall_forall in Hall. apply (scrub_ballot_ok k w b (Hall b Hb)). }
+    assert (Hsf : score_free cand (condense_bs kept)).
+    { apply condense_sf. eapply Forall_impl; [|exact Hkall]. intros b Hb. apply Hb. }
+    assert (Hpos : all_pos cand (condense_bs kept)).
+    { apply condense_pos. eapply Forall_impl; [|exact Hkall]. intros b Hb. apply Hb. }
+    apply Forall_forall. intros k0 Hk0.
+    unfold score_free in Hsf. unfold all_pos in Hpos. rewrite Forall_forall in Hsf, Hpos, Hkall.
+    destruct (condense_rk_in cand ceqb kept k0 Hk0) as (b' & Hb' & Hrk).
+    destruct (Hkall b' Hb') as (_ & _ & Hnd0 & Hgr0 & Hlen0).
+    split; [apply Hsf; exact Hk0|]. split; [apply Hpos; exact Hk0|]. rewrite Hrk.
+    split; [exact Hnd0|]. split; [exact Hgr0|exact Hlen0].
+Qed.
+
+Corollary rd_sequence_mass_seats : forall k (p : profile), rd_seats_ok k p ->
+  mass (law_rd_sequence k p) == 1.
+Proof. intros k p H. apply rd_sequence_mass. apply seats_ok_tree. exact H. Qed.
 
 End C17.
